@@ -494,6 +494,9 @@ func Substr(s, off, n *Term) *Term {
 	if off.Op == "int" && off.I.Sign() == 0 && termEq(n, StrLen(s)) {
 		return s
 	}
+	if n.Op == "int" && n.I.Sign() == 0 {
+		return Str("")
+	}
 	return app("str.substr", SString, s, off, n)
 }
 func StrPrefixOf(p, s *Term) *Term {
